@@ -3,8 +3,8 @@ package main
 // Caller-memory probes for NESTED interface-typed fields.  lorawan.Payload / MACCommandPayload are open
 // interfaces: CFList.Payload, MACCommand.Payload, PHYPayload.MACPayload and the FOpts / FRMPayload elements
 // may hold a *DataPayload (raw, pre-encoded bytes), a ProprietaryMACCommandPayload or a foreign implementation
-// (framefmt.Opaque).  DataPayload.MarshalBinary and ProprietaryMACCommandPayload.MarshalBinary return their own
-// Bytes, so every encoder that appends to / returns what a nested MarshalBinary gave it touches caller memory
+// (framefmt.Opaque).  DataPayload.MarshalBinary and ProprietaryMACCommandPayload.MarshalBinary returned their own
+// Bytes until fix 02a1cb6 (and a foreign implementation still may), so every encoder that appends to / returns what a nested MarshalBinary gave it touches caller memory
 // when those Bytes are a sub-slice with spare capacity.  Each probe places every such slice into a guarded
 // window (pattern, spare capacity, sentinel), runs one operation (marshal, MIC set / validate, encrypt), and
 // requires: every backing buffer unchanged incl. capacity and guards; the output shares no memory with any of
